@@ -57,6 +57,7 @@ def main():
                 print(p.stdout[-1500:], p.stderr[-500:])
     finally:
         subprocess.run(["git", "-C", "/repo", "worktree", "remove", "--force", wt])
+        subprocess.run(["rm", "-rf", "/tmp/verif-out-" + os.path.basename(wt)])
     print("RESULT", rc_all)
     return 0
 
